@@ -2098,8 +2098,22 @@ def oracle(ctx, broken, hints):
     failures.sort(key=lambda f: len(core.canon(f.input)))
     # shrink the history of the reported failures to what is needed
     failures = [shrink_failure(ctx, f) for f in failures[:3]] + failures[3:]
+    # every public member of every class reachable from the File (found by introspection), called with the switch
+    # off: no stored time stamp of any pre-existing entity may change (and, with the switch on: no created_at, no
+    # updated_at backwards).  All objects when something is broken and in the thorough tier, a share of them otherwise.
+    from . import c19_off
+    full = broken or not ctx.quick()
+    try:
+        n, f, cov = c19_off.run(ctx, rng, share=1.0 if full else 0.3, pristine=not ctx.quick(), second_pass=full,
+                                on_share=1.0 if full else 0.12)
+    except Exception as e:
+        ctx.notes.append("switch-off sweep aborted: %s: %s" % (type(e).__name__, e))
+        n, f, cov = 0, [], {"aborted": "%s: %s" % (type(e).__name__, e)}
+    evals += n
+    swept = [c19_off.shrink(ctx, x) for x in f[:3]] + f[3:]
+    failures = sorted(failures + swept, key=lambda f: len(core.canon(f.input)))      # (the shortest input is reported)
     return {"evaluations": evals, "failures": failures, "histories": len(hist), "systematic_histories": systematic,
-            "switch_checks": getattr(ctx, "c19_oracle_stats", {})}
+            "switch_checks": getattr(ctx, "c19_oracle_stats", {}), "member_sweep": cov}
 
 
 def shrink_failure(ctx, f):
@@ -2159,6 +2173,13 @@ def matches_known(entry, failure):
 
 def replay_failure(ctx, fj):
     inp = fj["input"]
+    if isinstance(inp, dict) and "off_sweep" in inp:
+        from . import c19_off
+        fs = c19_off.replay(ctx, inp)
+        for x in fs:
+            if x.site == fj.get("site"):
+                return x
+        return fs[0] if fs else None
     if isinstance(inp, dict) and "history" in inp:
         _, fs = check_history(ctx, inp["history"], "r")
         for x in fs:
